@@ -3,7 +3,7 @@
    Quantification: EVERY remote index map / interface map / container layout / payload values / policy (copy, add) /
    direction (fwd = true forward, false backward) / completion order of MPI_Waitany. *)
 From Coq Require Import List Arith Bool PeanoNat NArith Permutation Sorted.
-From DuneV Require Import C05_Model C05_Spec C05_Proofs C05_Proofs_Comm C05_Proofs_Deliv C05_Proofs_Glue C05_Proofs_Remote C05_Proofs_Phase C05_Proofs_Dt C05_Proofs_Main.
+From DuneV Require Import Params_gen C05_Model C05_Spec C05_Proofs C05_Proofs_Comm C05_Proofs_Deliv C05_Proofs_Glue C05_Proofs_Remote C05_Proofs_Phase C05_Proofs_Dt C05_Proofs_Dec C05_Proofs_Obj C05_Proofs_Seq C05_Proofs_Oracle C05_Proofs_Main.
 Import ListNotations.
 
 (* Interface::build on ANY remote index map: no assert of InterfaceInformation::add fires; per neighbour exactly the local
@@ -283,6 +283,156 @@ Theorem C05_interface_recv_is_spec : forall ign src dst S T, NoDup (map c05_ie_g
 Proof. exact PM_interface_recv_is_spec. Qed.
 Print Assumptions C05_interface_recv_is_spec.
 
+(* ------------------------------------------------------------------ buffer offset arithmetic as an invariant of build()
+   in each of the two buffers the (start,size) intervals of messageInformation_ are ascending in process order, do not overlap,
+   lie inside the buffer, and their sizes add up to exactly the allocated size (bufferSize_[k] in values) *)
+Theorem C05_buffer_layout : forall szs szd ifs,
+  let cm := c05_comm_build szs szd ifs in
+  c05_layout_ok (map c05_iv_send (c05_cm_info cm)) 0 (c05_cm_b0 cm) /\
+  c05_layout_ok (map c05_iv_recv (c05_cm_info cm)) 0 (c05_cm_b1 cm).
+Proof. exact P_layout. Qed.
+Print Assumptions C05_buffer_layout.
+
+(* ------------------------------------------------------------------ FROM A DECOMPOSITION, no further hypotheses about interfaces
+   For EVERY decomposition (one entry per global index in each set, entries inserted in any order, any attributes and public flags),
+   every publicity mode, one or two index sets, every pair of flag sets, containers whose block size is a function of the global
+   index (SizeOne: the constant 1), both directions, both policies, every rank and every completion order on every rank:
+   sendRecv returns C05_Ok and has scattered exactly the matched-pair calls; the layout is unchanged.  All hypotheses of
+   C05_phase_ok (unique ascending keys, ranks below P, pairing, layouts) are PROVED for c05_dec_ifs, not assumed.
+   (Interface::build returns exactly c05_dec_ifs: C05_interface_spec.) *)
+Theorem C05_decomposition_delivery : forall two ign src dst (dec : c05_decomp) (Sc Tc : nat -> c05_data) (sz : nat -> nat),
+  (forall p, NoDup (map c05_ie_g (fst (nth p dec ([], [])))) /\ NoDup (map c05_ie_g (snd (nth p dec ([], []))))) ->
+  (forall p e, In e (fst (nth p dec ([], []))) -> c05_getsize (Sc p) (c05_ie_l e) = sz (c05_ie_g e)) ->
+  (forall p e, In e (snd (nth p dec ([], []))) -> c05_getsize (Tc p) (c05_ie_l e) = sz (c05_ie_g e)) ->
+  forall (fwd add : bool) (orders : list (list nat)) (q : nat), q < length dec ->
+  let ifs := c05_dec_ifs two ign src dst dec in
+  let szs := fun (p l : nat) => c05_getsize (Sc p) l in let szd := fun (p l : nat) => c05_getsize (Tc p) l in
+  let gd := fun p : nat => if fwd then Sc p else Tc p in let sd := fun p : nat => if fwd then Tc p else Sc p in
+  Permutation (nth q orders []) (map fst (c05_recvs fwd (c05_g_cm ifs szs szd q))) ->
+  exists d' log',
+    nth q (c05_phase add fwd (map (c05_g_cm ifs szs szd) (seq 0 (length dec))) (map gd (seq 0 (length dec))) (map sd (seq 0 (length dec))) orders) C05_Stuck
+      = C05_Ok d' log' /\
+    Permutation log' (c05_g_pair_calls fwd ifs gd szs szd q) /\
+    d' = c05_apply_calls add (sd q) log' /\ c05_shape d' = c05_shape (sd q).
+Proof. exact PM_decomposition_delivery. Qed.
+Print Assumptions C05_decomposition_delivery.
+
+(* ------------------------------------------------------------------ the ORACLE of the check is the model's delivery
+   checks/C05.py judges the impl with the extracted c05_spec_interface / c05_spec_scatter_fwd / c05_spec_scatter_bwd, which are
+   set comprehensions over the RAW decomposition (the documentation's i^s, i^t and "every matched pair").  These theorems close
+   the loop: for every decomposition they are exactly (interfaces) resp. up to order (calls) what Interface::build returns and
+   what C05_decomposition_delivery says every communication scatters. *)
+Theorem C05_oracle_interface : forall two ign src dst (dec : c05_decomp),
+  (forall p, NoDup (map c05_ie_g (fst (nth p dec ([], [])))) /\ NoDup (map c05_ie_g (snd (nth p dec ([], []))))) ->
+  forall p, p < length dec ->
+  c05_spec_interface two ign (c05_contains src) (c05_contains dst) dec p = c05_dec_ifs two ign src dst dec p.
+Proof. exact P_oracle_interface. Qed.
+Print Assumptions C05_oracle_interface.
+
+Theorem C05_oracle_forward : forall two ign src dst (dec : c05_decomp),
+  (forall p, NoDup (map c05_ie_g (fst (nth p dec ([], [])))) /\ NoDup (map c05_ie_g (snd (nth p dec ([], []))))) ->
+  forall (Sc Tc : nat -> c05_data) (sz : nat -> nat),
+  (forall p e, In e (fst (nth p dec ([], []))) -> c05_getsize (Sc p) (c05_ie_l e) = sz (c05_ie_g e)) ->
+  (forall p e, In e (snd (nth p dec ([], []))) -> c05_getsize (Tc p) (c05_ie_l e) = sz (c05_ie_g e)) ->
+  forall q, q < length dec ->
+  Permutation (c05_g_pair_calls true (c05_dec_ifs two ign src dst dec) Sc (fun p l => c05_getsize (Sc p) l) (fun p l => c05_getsize (Tc p) l) q)
+              (c05_spec_scatter_fwd two ign (c05_contains src) (c05_contains dst) dec (map Sc (seq 0 (length dec))) q).
+Proof. exact P_oracle_forward. Qed.
+Print Assumptions C05_oracle_forward.
+
+Theorem C05_oracle_backward : forall two ign src dst (dec : c05_decomp),
+  (forall p, NoDup (map c05_ie_g (fst (nth p dec ([], [])))) /\ NoDup (map c05_ie_g (snd (nth p dec ([], []))))) ->
+  forall (Sc Tc : nat -> c05_data) (sz : nat -> nat),
+  (forall p e, In e (fst (nth p dec ([], []))) -> c05_getsize (Sc p) (c05_ie_l e) = sz (c05_ie_g e)) ->
+  (forall p e, In e (snd (nth p dec ([], []))) -> c05_getsize (Tc p) (c05_ie_l e) = sz (c05_ie_g e)) ->
+  forall p, p < length dec ->
+  Permutation (c05_g_pair_calls false (c05_dec_ifs two ign src dst dec) Tc (fun p l => c05_getsize (Sc p) l) (fun p l => c05_getsize (Tc p) l) p)
+              (c05_spec_scatter_bwd two ign (c05_contains src) (c05_contains dst) dec (map Tc (seq 0 (length dec))) p).
+Proof. exact P_oracle_backward. Qed.
+Print Assumptions C05_oracle_backward.
+
+(* ------------------------------------------------------------------ repeated use
+   any sequence of forward/backward communications (any policies, any completion orders) on communicators built once: every
+   single communication returns on every rank with the matched-pair calls of the containers as they are then; layouts never
+   change.  (One container per rank is the instance Sc = Tc of the single-phase theorems; here two container families.) *)
+Theorem C05_repeated_use : forall ifs (Sc0 Tc0 : nat -> c05_data) szs szd,
+  (forall p, NoDup (map fst (ifs p))) ->
+  (forall p e l, In e (ifs p) -> In l (fst (snd e)) -> szs p l = c05_getsize (Sc0 p) l) ->
+  (forall p e l, In e (ifs p) -> In l (snd (snd e)) -> szd p l = c05_getsize (Tc0 p) l) ->
+  (forall p q, Forall2 (fun l l' => c05_getsize (Sc0 p) l = c05_getsize (Tc0 q) l') (c05_g_sendlist true ifs p q) (c05_g_recvlist true ifs q p)) ->
+  forall h ph rest, Forall (c05_ph_orders_ok ifs szs szd) (h ++ ph :: rest) ->
+  let st := c05_seq_run ifs szs szd h (Sc0, Tc0) in
+  (forall p, c05_shape (fst st p) = c05_shape (Sc0 p) /\ c05_shape (snd st p) = c05_shape (Tc0 p)) /\
+  forall q, exists d' log',
+    c05_seq_result ifs szs szd st ph q = C05_Ok d' log' /\
+    Permutation log' (c05_g_pair_calls (c05_ph_fwd ph) ifs (if c05_ph_fwd ph then fst st else snd st) szs szd q) /\
+    c05_shape d' = c05_shape ((if c05_ph_fwd ph then snd st else fst st) q).
+Proof. exact P_repeated_use. Qed.
+Print Assumptions C05_repeated_use.
+
+(* ------------------------------------------------------------------ the objects: histories of build / free / strip / communicate *)
+(* BufferedCommunicator: after ANY history a build() leaves exactly the communicator of the new interface (rebuild, also after
+   free()), and any number of forward()/backward() calls leave the object unchanged *)
+Theorem C05_communicator_history : forall h szs szd ifs n,
+  c05_bobj_run (h ++ C05_BBuild szs szd ifs :: repeat C05_BCommunicate n) = c05_comm_build szs szd ifs.
+Proof. exact P_bobj_history. Qed.
+Print Assumptions C05_communicator_history.
+
+(* Interface: after free() a build() succeeds and yields the interface of the definition whatever happened before (a later
+   strip() changes nothing); a build() on a non-empty interface trips assert(interfaces_.empty()) *)
+Theorem C05_interface_history : forall h src dst rm, c05_iobj_run h <> None ->
+  c05_iobj_run (h ++ [C05_IFree; C05_IBuild src dst rm]) = Some (c05_iface_def src dst rm) /\
+  c05_iobj_run (h ++ [C05_IFree; C05_IBuild src dst rm; C05_IStrip]) = Some (c05_iface_def src dst rm).
+Proof. exact P_iobj_build_after_free. Qed.
+Print Assumptions C05_interface_history.
+
+Theorem C05_interface_build_twice_asserts : forall h src dst rm src' dst' rm', c05_iface_def src dst rm <> [] ->
+  c05_iobj_run (h ++ [C05_IFree; C05_IBuild src dst rm; C05_IBuild src' dst' rm']) = None \/ c05_iobj_run h = None.
+Proof. exact P_iobj_build_twice. Qed.
+Print Assumptions C05_interface_build_twice_asserts.
+
+(* ------------------------------------------------------------------ DatatypeCommunicator: the persistent requests, literally
+   forward(): receive into receiveData with the receive types, send from sendData with the send types; backward(): receive into
+   sendData, send from receiveData — every request with the datatype built from THAT container (the clause a swap of the
+   createRequests arguments breaks); request slots as in the source *)
+Theorem C05_datatype_requests : forall types,
+  c05_dt_forward_requests types =
+    (map (fun e => {| c05_rq_proc := fst e; c05_rq_cont := C05_ReceiveData; c05_rq_type := c05_dt_recvtype true (snd e) |}) types,
+     map (fun e => {| c05_rq_proc := fst e; c05_rq_cont := C05_SendData; c05_rq_type := c05_dt_sendtype true (snd e) |}) types) /\
+  c05_dt_backward_requests types =
+    (map (fun e => {| c05_rq_proc := fst e; c05_rq_cont := C05_SendData; c05_rq_type := c05_dt_recvtype false (snd e) |}) types,
+     map (fun e => {| c05_rq_proc := fst e; c05_rq_cont := C05_ReceiveData; c05_rq_type := c05_dt_sendtype false (snd e) |}) types).
+Proof. exact P_dt_requests. Qed.
+Print Assumptions C05_datatype_requests.
+
+Theorem C05_datatype_requests_consistent : forall src dst rm sd rd types,
+  c05_dt_build src dst rm sd rd = Some types ->
+  forall r, In r (fst (c05_dt_forward_requests types) ++ snd (c05_dt_forward_requests types) ++
+                  fst (c05_dt_backward_requests types) ++ snd (c05_dt_backward_requests types)) ->
+  exists info, c05_rq_type r = c05_dt_of (match c05_rq_cont r with C05_SendData => sd | C05_ReceiveData => rd end) info.
+Proof. exact P_dt_requests_consistent. Qed.
+Print Assumptions C05_datatype_requests_consistent.
+
+(* ------------------------------------------------------------------ constants and code shapes re-read from the source
+   (coq/Params_gen.v is regenerated by tools/params.d/C05.py on every run): every transcribed code shape is still present,
+   the two communicator classes use different message tags (so a receive of one never matches a send of the other), and
+   forward()/backward() use the request slots createRequests<true>/<false> filled *)
+Theorem C05_source_matches_model :
+  forallb (fun b => b) c05_param_all_shapes = true /\
+  c05_param_buffered_tag <> c05_param_datatype_tag /\
+  c05_param_dt_slot_used_by_forward = c05_dt_slot true /\
+  c05_param_dt_slot_used_by_backward = c05_dt_slot false /\
+  c05_dt_slot true <> c05_dt_slot false.
+Proof. exact P_source_matches_model. Qed.
+Print Assumptions C05_source_matches_model.
+
+Theorem C05_tags_disjoint : forall src sender,
+  c05_recv_matches src c05_param_buffered_tag sender c05_param_datatype_tag = false /\
+  c05_recv_matches src c05_param_datatype_tag sender c05_param_buffered_tag = false /\
+  c05_recv_matches src c05_param_buffered_tag sender c05_param_buffered_tag = (src =? sender).
+Proof. exact P_tags_disjoint. Qed.
+Print Assumptions C05_tags_disjoint.
+
 (* ------------------------------------------------------------------ repeated build() of one communicator object (F-C05-1)
    c05_comm_build_over old = build() as it is in the tree (std::map::insert into the messageInformation_ of a previous build);
    the delivery statement is REFUTED for it: after building for {0: send [0;1], receive [0;1]} and then for {0: send [1],
@@ -363,3 +513,19 @@ Example C05_ex_global_hyps :
   (forall p q, Forall2 (fun l l' => c05_getsize (ex_g p) l = c05_getsize (ex_g q) l') (c05_g_sendlist true ex_ifs p q) (c05_g_recvlist true ex_ifs q p)) /\
   c05_g_pair_calls true ex_ifs ex_g ex_sz ex_sz 1 = [(0, 0, 1%N); (0, 1, 2%N); (2, 0, 3%N)].
 Proof. exact PM_ex_global_hyps. Qed.
+
+(* a two-rank decomposition given in unsorted insertion order: the hypotheses of C05_decomposition_delivery hold and the
+   extracted all-ranks function delivers (forward, accumulate, descending completion order) *)
+Example C05_ex_decomposition :
+  (forall p, NoDup (map c05_ie_g (fst (nth p ex_dec ([], [])))) /\ NoDup (map c05_ie_g (snd (nth p ex_dec ([], []))))) /\
+  let ifs := c05_dec_ifs false true (C05_Item 0) (C05_Item 1) ex_dec in
+  ifs 0 = [(1, ([1], [2]))] /\ ifs 1 = [(0, ([1], [0]))] /\
+  let szs := fun (p l : nat) => c05_getsize (ex_Sc p) l in
+  c05_phase true true (map (c05_g_cm ifs szs szs) (seq 0 2)) (map ex_Sc (seq 0 2)) (map ex_Sc (seq 0 2)) [[1]; [0]] =
+  [C05_Ok [[1]; [2]; [23]]%N [(2, 0, 20%N)]; C05_Ok [[12]; [20]; [30]]%N [(0, 0, 2%N)]].
+Proof. exact PM_ex_decomposition. Qed.
+Example C05_ex_history :
+  c05_cm_info (c05_bobj_run [C05_BBuild (fun _ => 1) (fun _ => 1) [(0, ([0; 1], [0; 1]))]; C05_BCommunicate; C05_BFree;
+                             C05_BBuild (fun _ => 1) (fun _ => 1) [(0, ([1], [0]))]; C05_BCommunicate; C05_BCommunicate])
+  = [(0, ({| c05_mi_start := 0; c05_mi_size := 1 |}, {| c05_mi_start := 0; c05_mi_size := 1 |}))].
+Proof. vm_compute. reflexivity. Qed.
